@@ -31,10 +31,10 @@ type result struct {
 }
 
 var (
-	reXA        = regexp.MustCompile(`(?is)^\s*XA\s+(START|BEGIN|END|PREPARE|COMMIT|ROLLBACK|RECOVER)\b\s*(.*?)\s*$`)
-	reSavepoint = regexp.MustCompile(`(?is)^\s*SAVEPOINT\s+` + "`?" + `([A-Za-z0-9_$]+)` + "`?" + `\s*$`)
+	reXA         = regexp.MustCompile(`(?is)^\s*XA\s+(START|BEGIN|END|PREPARE|COMMIT|ROLLBACK|RECOVER)\b\s*(.*?)\s*$`)
+	reSavepoint  = regexp.MustCompile(`(?is)^\s*SAVEPOINT\s+` + "`?" + `([A-Za-z0-9_$]+)` + "`?" + `\s*$`)
 	reRollbackTo = regexp.MustCompile(`(?is)^\s*ROLLBACK\s+(?:WORK\s+)?TO\s+(?:SAVEPOINT\s+)?` + "`?" + `([A-Za-z0-9_$]+)` + "`?" + `\s*$`)
-	reRelease   = regexp.MustCompile(`(?is)^\s*RELEASE\s+SAVEPOINT\s+` + "`?" + `([A-Za-z0-9_$]+)` + "`?" + `\s*$`)
+	reRelease    = regexp.MustCompile(`(?is)^\s*RELEASE\s+SAVEPOINT\s+` + "`?" + `([A-Za-z0-9_$]+)` + "`?" + `\s*$`)
 )
 
 func trimSemis(q string) string {
